@@ -13,7 +13,11 @@ if "--wt" in sys.argv:
     wt = sys.argv[sys.argv.index("--wt") + 1]
 src = f"/tmp/seeds/{prop}/{n}"
 meta = json.load(open(f"{src}/meta.json"))
-loc = " ".join(str(meta.get(k, "")) for k in ("demo_location", "demo", "demonstration")) + " " + " ".join(meta.get("commands_run", []))
+def _s(v):
+    if isinstance(v, dict):
+        return str(v.get("primary") or v.get("location") or " ".join(str(x) for x in v.values()))
+    return str(v)
+loc = " ".join(_s(meta.get(k, "")) for k in ("demo_location", "demo", "demonstration")) + " " + " ".join(meta.get("commands_run", []) if isinstance(meta.get("commands_run", []), list) else [])
 append = re.search(r"[Aa]ppend\w*\s.*?(?:end|END) of (\S+\.rs)", loc)
 m = re.search(r"(?:copy|drop|place|put)\s+(?:\S*demo\S*\s+)?(?:to|into|as|at)\s+(\S+\.rs)", loc) if not append else append
 if not m:
@@ -27,7 +31,7 @@ pkg = {"autonomi": "autonomi"}.get(crate, crate)
 testname = os.path.basename(dest)[:-3]
 libfilter = None
 if append:
-    mf = re.search(r"--lib\s+([A-Za-z0-9_:]+)", loc)
+    mf = re.search(r"--lib\s+([A-Za-z0-9_:]+)", loc) or re.search(r"child module (\w+)", loc) or re.search(r"mod (\w+)", open(f"{src}/demo_test.rs").read())
     libfilter = mf.group(1) if mf else ""
 env = dict(os.environ, CARGO_TARGET_DIR=f"{wt}/target", CARGO_NET_OFFLINE="true")
 demo_file = "demo_test.rs" if os.path.exists(f"{src}/demo_test.rs") else [f for f in os.listdir(src) if f.endswith(".rs")][0]
